@@ -303,7 +303,10 @@ func checkC07(w *World, r *Run) {
 	iface := w.Iface("internal/storage", "Storage")
 	if T != nil && iface != nil {
 		mat := overrideMatrix(T, iface)
-		for _, mf := range []struct{ method, opts string; fields []string }{
+		for _, mf := range []struct {
+			method, opts string
+			fields       []string
+		}{
 			{"PutObject", "PutObjectOptions", []string{"IfMatchETag", "IfNoneMatchStar"}},
 			{"CompleteMultipartUpload", "CompleteMultipartUploadOptions", []string{"IfMatchETag", "IfNoneMatchStar"}},
 			{"DeleteObject", "DeleteObjectOptions", []string{"IfMatchETag"}},
@@ -325,7 +328,10 @@ func checkC07(w *World, r *Run) {
 		}
 	}
 	// outbox: sync predicate
-	for _, mf := range []struct{ method, varName string; fields []string }{
+	for _, mf := range []struct {
+		method, varName string
+		fields          []string
+	}{
 		{"PutObject", "putMustBeSynchronous", []string{"IfMatchETag", "IfNoneMatchStar"}},
 		{"DeleteObject", "deleteMustBeSynchronous", []string{"IfMatchETag"}},
 	} {
